@@ -98,7 +98,8 @@ def detect(names, extra_props=None):
                 res.append(caught)
         finally:
             sh(["git", "-C", "/repo", "worktree", "remove", "--force", wt])
-            json.dump(meta, open(os.path.join(d, "meta.json"), "w"), indent=1)
+            if not os.environ.get("SEEDED_NO_META"):
+                json.dump(meta, open(os.path.join(d, "meta.json"), "w"), indent=1)
     print(f"{sum(res)}/{len(res)} caught")
 
 
